@@ -132,7 +132,7 @@ def run(tier):
         check_behaviour(ck, conc, lambda t: mappyfile.loads(t, expand_includes=False), h, "public-loads", per_step=False)
     from .. import quoting
     quoting.run(ck, "C02", tier, impl.loader(expand_includes=True), impl.dumper)
-    from .. import numbers
+    from .. import numlex as numbers
     numbers.run(ck, "C02", tier, impl.loader(expand_includes=True), None)
     from .. import hexlex
     hexlex.run(ck, "C02", tier, impl.loader(expand_includes=True), None)
